@@ -252,6 +252,7 @@ REG['C08'] = {
 }
 
 REG['C09'] = {
+    'K': [dict(id='c09_k_hour_index', fn='LunarHour::get_index_in_day', clause='index in day == floor((hour+1)/2) for every hour and every lunar day')],
     'level': 'other',
     'design_ref': '5/C09',
     'technique': 'hour-pillar contract (branch floor((h+1)/2) mod 12, Five Rats, 23:00 roll) executed over all 60 x 24 combinations; eight characters == four pillars; inverse search soundness/completeness by seeded execution',
@@ -322,6 +323,8 @@ REG['C16'] = {
 }
 
 REG['C17'] = {
+    'K': [dict(id='c17_k_six_star', fn='LunarDay::get_six_star', clause='== (|month| + day - 2) mod 6 for every (month incl. leap, day)'),
+          dict(id='c17_k_minor_ren', fn='LunarDay::get_minor_ren / LunarMonth::get_minor_ren', clause='== ((|month|-1) mod 6 + day - 1) mod 6')],
     'level': 'other',
     'design_ref': '5/C17',
     'technique': 'defining recurrences of the daily/hourly almanac cycles executed exhaustively over every civil date, every lunar year and every (year branch, month) pair',
@@ -351,8 +354,8 @@ REG['C18'] = {
 REG['C20'] = {
     'level': 'other',
     'design_ref': '5/C20',
-    'technique': 'Kani on the festival stepping carry + exhaustive execution of festival / holiday lookups in both directions over the stated ranges',
-    'level_text': 'Deductive part: SolarFestival::next / LunarFestival::next index-year carry (Kani on the arithmetic, index_of from C11). Bounded part (execution): every civil date 1900..2100 and every (year 1..9998, index) for civil festivals; lunar festivals by index fall on a day whose own lookup returns them (or the earlier-listed one), fixed dates, term days, New Year eve = last day (29/30) of the lunar year; every lunar date 1900..2100; all holiday records 2000..2030: real dates, returned for that date only, stepping visits them in strictly increasing order and next(k) lands k places on.',
+    'technique': 'exhaustive / bounded execution of festival and holiday lookup contracts in both directions over the stated ranges (regex-based code: no deductive part)',
+    'level_text': 'No deductive part (every function goes through regex over string tables); index_of used by the stepping carry is proved in C11. Bounded part (execution): every civil date 1900..2100 and every (year 1..9998, index) for civil festivals; lunar festivals by index fall on a day whose own lookup returns them (or the earlier-listed one), fixed dates, term days, New Year eve = last day (29/30) of the lunar year; every lunar date 1900..2100; all holiday records 2000..2030: real dates, returned for that date only, stepping visits them in strictly increasing order and next(k) lands k places on.',
     'level_note': 'lookups go through regex over string tables (L-RX): execution only; known findings: New Year eve / Laba in the reform-year windows (consequence of C03)',
     'explanation': 'bounded / exhaustive execution of the lookup contracts over the ranges stated in the property',
     'functions': ['SolarFestival::from_ymd / from_index / next', 'LunarFestival::from_ymd / from_index / next', 'LegalHoliday::from_ymd / next'],
